@@ -58,7 +58,7 @@ struct SendObs {
 }
 
 fn scenario(pr: &Params) -> Verdict {
-    world::reset(world::WorldCfg { nested_env: true, yields: true, select: false, policy: pr.policy });
+    world::reset(world::WorldCfg { nested_env: true, yields: true, select: false, policy: pr.policy, coop: false });
     let ty = pr.ty;
     let n = pr.peers;
     let conns: Vec<e3::RawConn> = (0..n).map(|p| e3::raw_conn(&format!("P{}", p))).collect();
